@@ -4,7 +4,7 @@ from __future__ import annotations
 from . import geom
 from .model import RefGraph, ROLES
 
-MAX_ATOMS = 10
+MAX_ATOMS = 12
 MAX_NODES = 150_000     # search-tree budget; beyond it the oracle abstains
 
 
